@@ -290,7 +290,14 @@ def run_check(check_name, tier="quick", jobs=None, only=None):
         sig = c["signature"]
         if sig in seen_sig:
             seen_sig[sig]["count"] += 1
-            continue
+            # an over-approximating model (rounding formats, pinned representatives) can hand out a first candidate that does
+            # not replay although a later one of the same signature does: a few more are tried before the signature is given up
+            if seen_sig[sig]["reproduced"] is True or seen_sig[sig].get("tries", 1) >= 6:
+                continue
+            seen_sig[sig]["tries"] = seen_sig[sig].get("tries", 1) + 1
+            first = seen_sig[sig]
+        else:
+            first = None
         blob = json.dumps(c, sort_keys=True)
         h = hashlib.sha256(blob.encode()).hexdigest()[:12]
         path = os.path.join(OUT, "replays", prop, f"{check_name}-{h}.json")
@@ -298,6 +305,11 @@ def run_check(check_name, tier="quick", jobs=None, only=None):
             json.dump({"check": check_name, **c}, fh, indent=1)
         ok, out = replay_file(path)
         entry = {"candidate": c, "path": path, "count": 1, "reproduced": ok, "replay_output": out[-1500:]}
+        if first is not None:
+            if ok is not True:
+                continue
+            entry["count"], entry["tries"] = first["count"], first["tries"]
+            harness_errors.remove(first)
         seen_sig[sig] = entry
         if ok is True:
             kf = match_known(prop, sig, findings)
